@@ -49,6 +49,7 @@ func init() {
 			&vexplore.Scenario{Name: fmt.Sprintf("core-objects-hist-D%d", d), Mode: "hist", Reset: kit.ResetGlobals, Body: func() { coreHist(d) },
 				NeedCounters: []string{"census-clean", "closed-listener", "closed-dialer", "closed-pipe", "redial-pending-at-close", "refused-pipe", "closed-in-attached-callback"}},
 			&vexplore.Scenario{Name: "socket-with-several-dialers-and-listeners-closed", Mode: "enum", Reset: kit.ResetGlobals, Body: c14.SeveralEndpointsClosed, NeedCounters: []string{"three-or-more-dialers-all-stopped"}},
+			&vexplore.Scenario{Name: "later-calls-with-send-and-receive-modes-set", Mode: "enum", Reset: kit.ResetGlobals, Body: laterCallsWithModes, NeedCounters: []string{"later-calls-closed-with-a-mode-set"}},
 			&vexplore.Scenario{Name: "close-context-only", Mode: "enum", Reset: kit.ResetGlobals, Body: closeContextOnly},
 			&vexplore.Scenario{Name: "tcp-close-vs-incoming-connection", Mode: "sched", Bound: b + 1, Reset: kit.ResetGlobals, Body: tcpCloseVsAccept},
 			&vexplore.Scenario{Name: "close-of-a-listener-that-never-owned-the-address", Mode: "enum", Reset: kit.ResetGlobals, Body: closeLoserListener,
@@ -194,6 +195,84 @@ func closeBlocked(k *kinds.Kind, useCtx bool) {
 	kit.Quiesce()
 	census(name)
 	kit.Observe("%s", name)
+}
+
+// laterCallsWithModes: the modes that make Send / Recv return early by themselves - fail-no-peers,
+// best effort, short deadlines - are set (each alone, where the pattern has it) before the socket
+// is closed, with a peer connected or nobody connected.  Calls made after Close still fail with
+// the closed error (or the unsupported-operation error): a closed socket is closed, whatever else
+// might also be said about it.
+func laterCallsWithModes() {
+	k := kinds.All[kit.ChooseFree(len(kinds.All))]
+	mode := kit.ChooseFree(4)
+	withPeer := kit.ChooseFree(2) == 1
+	useCtx := k.Ctx && kit.ChooseFree(2) == 1
+	x := k.Open("c10m", withPeer, false)
+	x.Quiet()
+	var err error
+	var ctx mangos.Context
+	set := x.S.SetOption
+	if useCtx {
+		if ctx, err = x.S.OpenContext(); err != nil {
+			kit.Failf("setup:ctx:"+k.Name, "OpenContext: %s", kit.ErrName(err))
+		}
+		set = ctx.SetOption
+	}
+	what := ""
+	switch mode {
+	case 0:
+		what, err = "fail-no-peers", set(mangos.OptionFailNoPeers, true)
+	case 1:
+		what, err = "best-effort", set(mangos.OptionBestEffort, true)
+	case 2:
+		what, err = "send-deadline", set(mangos.OptionSendDeadline, time.Millisecond)
+	case 3:
+		what, err = "recv-deadline", set(mangos.OptionRecvDeadline, time.Millisecond)
+	}
+	if err != nil {
+		kit.Observe("%s has no %s", k.Name, what)
+		_ = x.S.Close()
+		return
+	}
+	name := fmt.Sprintf("%s:%s", k.Name, what)
+	if useCtx {
+		name += ":ctx"
+	}
+	kit.Must("Close", func() { _ = x.S.Close() })
+	kit.Quiesce()
+	for round := 0; round < 2; round++ {
+		later := []*kit.Call{
+			kit.Start("Send-after", func() (interface{}, error) {
+				if ctx != nil {
+					return nil, ctx.Send([]byte("late"))
+				}
+				return nil, x.Send("late") // (a well-formed message of the kind: raw sockets get their header)
+			}),
+			kit.Start("Recv-after", func() (interface{}, error) {
+				if ctx != nil {
+					b, err := ctx.Recv()
+					return string(b), err
+				}
+				b, err := x.S.Recv()
+				return string(b), err
+			}),
+		}
+		kit.Quiesce()
+		kit.Sleep(10 * time.Millisecond)
+		kit.Quiesce()
+		for _, c := range later {
+			if !c.Done() {
+				kit.Failf("later-call-blocks:"+name+":"+c.Name, "%s (peer connected before Close: %v): %s blocks after Close", name, withPeer, c.Name)
+			}
+			switch c.Err {
+			case mangos.ErrClosed, mangos.ErrProtoOp:
+			default:
+				kit.Failf("later-call-error:"+name+":"+c.Name, "%s (peer connected before Close: %v): %s after Close returned %s / %v, want ErrClosed (or ErrProtoOp)", name, withPeer, c.Name, kit.ErrName(c.Err), c.Val)
+			}
+		}
+	}
+	kit.Count("later-calls-closed-with-a-mode-set")
+	kit.Observe("%s peer=%v", name, withPeer)
 }
 
 // closeNoPeer: nobody is connected.  A Send waits for a peer and a Recv waits behind it on the same
